@@ -90,6 +90,7 @@ type Ctx struct {
 	loopDepth      int
 	pathMode       *pathEnum // non-nil while a loop body is executed in split-paths mode
 	sliceQueries   bool // "opt decl-pc": emit only the declarations in the cone of influence of an obligation
+	atStmtSeen     map[string]bool
 	loadCache      map[string]Val
 	declInfo       []declInfo
 	indexMu        sync.Mutex
